@@ -110,6 +110,35 @@ pub fn cmd_transcript(args: &[String]) {
         cb::crypto_box_easy(&mut bc, &m, &nonce, &spk, &bsk).unwrap();
         emit(&mut out, &mut rep, format!("box i={}", i), vec![("crypto_box_easy".into(), Ok(bc))]);
     }
+    // byte containers behave alike: the same fill / resize / clone sequence leaves the same bytes in every container
+    for i in 0..200u64 {
+        let l0 = [0usize, 1, 16, 33, 100, 4096, 4097][(i % 7) as usize];
+        let l1 = [0usize, 1, 15, 16, 32, 64, 99, 100, 4095, 4097, 8193][(i % 11) as usize];
+        let l2 = [5usize, 0, 40, 4096][(i % 4) as usize];
+        let data = rng.bytes(l0);
+        let mut im: Vec<(String, Result<Vec<u8>, String>)> = vec![];
+        im.push(("Vec<u8>".into(), { let mut v = data.clone(); ResizableBytes::resize(&mut v, l1, 0); let c = v.clone(); let mut v = c; ResizableBytes::resize(&mut v, l2, 7); Ok(v) }));
+        #[cfg(feature = "nightly")]
+        {
+            use dryoc::protected::*;
+            let run_heap = |lock: u8| -> Result<Vec<u8>, String> {
+                match catch(|| -> Result<Vec<u8>, String> {
+                    let mut h = HeapBytes::default();
+                    h.resize(l0, 0);
+                    h.as_mut_slice().copy_from_slice(&data);
+                    match lock {
+                        0 => { h.resize(l1, 0); let mut c = h.clone(); c.resize(l2, 7); Ok(c.as_slice().to_vec()) }
+                        1 => { let mut p = h.mlock().map_err(|e| e.to_string())?; p.resize(l1, 0); let mut c = p.clone(); c.resize(l2, 7); Ok(c.as_slice().to_vec()) }
+                        _ => { let p = h.mlock().map_err(|e| e.to_string())?; let mut u = p.munlock().map_err(|e| e.to_string())?; u.resize(l1, 0); let mut c = u.clone(); c.resize(l2, 7); Ok(c.as_slice().to_vec()) }
+                    }
+                }) { Ok(r) => r, Err(p) => Err(format!("PANIC {}", p)) }
+            };
+            im.push(("HeapBytes".into(), run_heap(0)));
+            im.push(("Locked<HeapBytes>".into(), run_heap(1)));
+            im.push(("Unlocked<HeapBytes>".into(), run_heap(2)));
+        }
+        emit(&mut out, &mut rep, format!("container_resize i={} {}->{}->{}", i, l0, l1, l2), im);
+    }
     for i in 0..24u64 {
         let pw = rng.bytes((i * 3) as usize);
         let salt = rng.bytes(16);
